@@ -1,15 +1,453 @@
-//! Extension `sticky` of the Yata executor (see ext/mod.rs for the contract).
-use crate::yata::World;
-use serde_json::Value;
+//! Extension `sticky` of the Yata executor (C14, see ext/mod.rs for the contract).
+//!
+//! Steps
+//!   {"a":"sticky","r":R,"p":[path of a text / array / XML fragment, element or text],"i":<visible unit index>|"all","assoc":"after"|"before"|"both","h":"<handle prefix>"}
+//!       creates sticky indexes through `IndexedSequence::sticky_index` on replica R, passes each through the binary
+//!       (encode_v1/decode_v1) and the JSON (serde_json) serialization and keeps the deserialized value.
+//!       One event of kind "sticky" with one entry per requested (index, assoc) in `made`.
+//!       Handle names: "<h>" for a single index with a single assoc, otherwise "<h>.<i><a|b>".
+//!   {"a":"resolve","r":R[,"h":"<handle>"][,"obs":true]}
+//!       `StickyIndex::get_offset` of one handle / of every live handle on replica R's document; the offset is
+//!       converted back to a visible unit index with the actual characters of the text. Event kind "resolve".
+//! Rust only drives the library and records; every decision is taken by spec/Trace_Sticky.tla.
+use crate::obs::{self, RootKind};
+use crate::yata::{panic_msg, World};
+use serde_json::{json, Value};
+use std::panic::{catch_unwind, AssertUnwindSafe};
+use yrs::updates::decoder::Decode;
+use yrs::updates::encoder::Encode;
+use yrs::types::text::YChange;
+use yrs::types::xml::{XmlFragment, XmlOut};
+use yrs::{Any, Array, Assoc, IndexScope, IndexedSequence, Map, OffsetKind, Out, ReadTxn, StickyIndex, Text, TextRef, Transact, XmlFragmentRef};
 
-pub fn init(_w: &mut World) {}
+pub struct Handle {
+    pub name: String,
+    pub idx: StickyIndex,
+    /// 't' text, 'a' array
+    pub kind: char,
+}
 
-pub fn step(_w: &mut World, _st: &Value) -> Option<Value> {
-    None
+#[derive(Default)]
+pub struct State {
+    pub handles: Vec<Handle>,
+    pub created: u32,
+}
+
+pub fn init(w: &mut World) {
+    w.ext.insert("sticky".into(), Box::new(State::default()));
+}
+
+fn state(w: &mut World) -> &mut State {
+    w.ext.get_mut("sticky").and_then(|b| b.downcast_mut::<State>()).expect("sticky state")
+}
+
+fn xml_out(x: XmlOut) -> Out {
+    match x {
+        XmlOut::Element(e) => Out::YXmlElement(e),
+        XmlOut::Fragment(f) => Out::YXmlFragment(f),
+        XmlOut::Text(t) => Out::YXmlText(t),
+    }
+}
+
+fn nav<T: ReadTxn>(w: &World, txn: &T, path: &[String]) -> Result<Out, String> {
+    let root = path.first().ok_or("empty path")?;
+    let mut cur: Out = if root == "x" {
+        Out::YXmlFragment(txn.get_xml_fragment("x").ok_or("no xml root")?)
+    } else {
+        let kind = w.roots.iter().find(|r| &r.0 == root).map(|r| r.1).ok_or("unknown root")?;
+        match kind {
+            RootKind::Text => Out::YText(txn.get_text(root.as_str()).ok_or("no text root")?),
+            RootKind::Array => Out::YArray(txn.get_array(root.as_str()).ok_or("no array root")?),
+            RootKind::Map => Out::YMap(txn.get_map(root.as_str()).ok_or("no map root")?),
+        }
+    };
+    for seg in &path[1..] {
+        cur = if let Some(i) = seg.strip_prefix('#') {
+            let i: u32 = i.parse().map_err(|_| "bad index")?;
+            match &cur {
+                Out::YArray(a) => a.get(txn, i).ok_or(format!("no element {}", i))?,
+                Out::YXmlFragment(f) => xml_out(f.get(txn, i).ok_or(format!("no child {}", i))?),
+                Out::YXmlElement(e) => {
+                    let f: &XmlFragmentRef = e.as_ref();
+                    xml_out(f.get(txn, i).ok_or(format!("no child {}", i))?)
+                }
+                _ => return Err("index into non-sequence".into()),
+            }
+        } else {
+            match &cur {
+                Out::YMap(m) => m.get(txn, seg).ok_or(format!("no key {}", seg))?,
+                _ => return Err("key into non-map".into()),
+            }
+        };
+    }
+    Ok(cur)
+}
+
+fn scope_json(s: &StickyIndex) -> (Value, &'static str, Value, String) {
+    // (anchor id, scope kind, scope id, scope root name) read from the public accessors
+    let anchor = match s.id() {
+        Some(id) => json!([id.client.get(), id.clock]),
+        None => json!([0, 0]),
+    };
+    match s.scope() {
+        IndexScope::Relative(_) => (anchor, "relative", json!([0, 0]), String::new()),
+        IndexScope::Nested(id) => (anchor, "nested", json!([id.client.get(), id.clock]), String::new()),
+        IndexScope::Root(n) => (anchor, "root", json!([0, 0]), n.to_string()),
+    }
+}
+
+/// widths of the visible units of a text in the configured offset kind (characters by their encoding, embeds count 1)
+fn text_units<T: ReadTxn>(txn: &T, t: &TextRef, kind: OffsetKind) -> Vec<u32> {
+    let mut out = Vec::new();
+    for d in t.diff(txn, YChange::identity) {
+        match &d.insert {
+            Out::Any(Any::String(s)) => {
+                for c in s.chars() {
+                    out.push(match kind {
+                        OffsetKind::Bytes => c.len_utf8() as u32,
+                        OffsetKind::Utf16 => c.len_utf16() as u32,
+                    });
+                }
+            }
+            _ => out.push(1),
+        }
+    }
+    out
+}
+
+/// the text behind a text-like target
+fn as_text(target: &Out) -> Option<&TextRef> {
+    match target {
+        Out::YText(t) => Some(t),
+        Out::YXmlText(x) => Some(x.as_ref()),
+        _ => None,
+    }
+}
+
+/// visible unit index -> offset handed to the API
+fn api_offset<T: ReadTxn>(w: &World, txn: &T, target: &Out, i: u32) -> u32 {
+    match as_text(target) {
+        Some(t) => {
+            let u = text_units(txn, t, w.offset);
+            let n = u.len() as u32;
+            let within: u32 = u.iter().take(i.min(n) as usize).sum();
+            // beyond the end: keep the distance in whole units
+            within + i.saturating_sub(n) * if w.offset == OffsetKind::Bytes { 3 } else { 1 }
+        }
+        None => i,
+    }
+}
+
+fn vis_len<T: ReadTxn>(w: &World, txn: &T, target: &Out) -> Option<u32> {
+    match target {
+        Out::YText(_) | Out::YXmlText(_) => Some(text_units(txn, as_text(target).unwrap(), w.offset).len() as u32),
+        Out::YArray(a) => Some(a.len(txn)),
+        Out::YXmlFragment(f) => Some(f.len(txn)),
+        Out::YXmlElement(e) => {
+            let f: &XmlFragmentRef = e.as_ref();
+            Some(f.len(txn))
+        }
+        _ => None,
+    }
+}
+
+fn make<T: ReadTxn>(txn: &T, target: &Out, off: u32, assoc: Assoc, via_type: bool) -> Option<StickyIndex> {
+    match target {
+        Out::YText(t) if via_type => Some(StickyIndex::from_type(txn, t, assoc)),
+        Out::YArray(a) if via_type => Some(StickyIndex::from_type(txn, a, assoc)),
+        Out::YXmlText(t) if via_type => Some(StickyIndex::from_type(txn, t, assoc)),
+        Out::YXmlFragment(f) if via_type => Some(StickyIndex::from_type(txn, f, assoc)),
+        Out::YXmlElement(e) if via_type => Some(StickyIndex::from_type(txn, e, assoc)),
+        Out::YText(t) => t.sticky_index(txn, off, assoc),
+        Out::YArray(a) => a.sticky_index(txn, off, assoc),
+        Out::YXmlText(t) => t.sticky_index(txn, off, assoc),
+        Out::YXmlFragment(f) => f.sticky_index(txn, off, assoc),
+        Out::YXmlElement(e) => e.sticky_index(txn, off, assoc),
+        _ => None,
+    }
+}
+
+fn create(w: &mut World, st: &Value) -> Value {
+    let r = st["r"].as_u64().unwrap();
+    let ri = w.rep(r);
+    let path: Vec<String> = st["p"].as_array().map(|v| v.iter().map(|x| x.as_str().unwrap().to_string()).collect()).unwrap_or_default();
+    let prefix = st["h"].as_str().unwrap_or("h").to_string();
+    let assocs: Vec<(&str, Assoc)> = match st["assoc"].as_str() {
+        Some("after") => vec![("after", Assoc::After)],
+        Some("before") => vec![("before", Assoc::Before)],
+        _ => vec![("after", Assoc::After), ("before", Assoc::Before)],
+    };
+    let doc = w.reps[ri].doc.clone();
+    let mut made: Vec<Value> = Vec::new();
+    let mut keep: Vec<Handle> = Vec::new();
+    let mut cont = String::new();
+    let mut par = json!([0, 0]);
+    let mut len = 0u32;
+    let res = catch_unwind(AssertUnwindSafe(|| -> Result<(), String> {
+        let txn = doc.transact();
+        let target = nav(w, &txn, &path)?;
+        let kind = match &target {
+            Out::YText(_) | Out::YXmlText(_) => 't',
+            Out::YArray(_) | Out::YXmlFragment(_) | Out::YXmlElement(_) => 'a',
+            _ => return Err("sticky: target is not a sequence".into()),
+        };
+        cont = World::cont_of(&target, &path, "");
+        if let Some(yrs::BranchID::Nested(id)) = target.try_branch().map(|b| b.id()) {
+            par = json!([id.client.get(), id.clock]);
+        }
+        len = vis_len(w, &txn, &target).unwrap_or(0);
+        let positions: Vec<u32> = match st["i"].as_u64() {
+            Some(i) => vec![i as u32],
+            None => (0..=len).collect(),
+        };
+        let single = positions.len() == 1 && assocs.len() == 1 && st["i"].is_u64();
+        // (index, assoc name, assoc, through StickyIndex::from_type)
+        let mut todo: Vec<(u32, &str, Assoc, bool)> = Vec::new();
+        for i in &positions {
+            for (an, assoc) in &assocs {
+                todo.push((*i, *an, *assoc, false));
+            }
+        }
+        if st["type"].as_bool().unwrap_or(!st["i"].is_u64()) {
+            // the container-scoped pair: start (left-associated) and end (right-associated) of the type
+            todo.push((0, "before", Assoc::Before, true));
+            todo.push((len, "after", Assoc::After, true));
+        }
+        for (i, an, assoc, via_type) in todo.iter() {
+            {
+                let name = if *via_type {
+                    format!("{}.t{}", prefix, &an[..1])
+                } else if single {
+                    prefix.clone()
+                } else {
+                    format!("{}.{}{}", prefix, i, &an[..1])
+                };
+                let off = api_offset(w, &txn, &target, *i);
+                let one = catch_unwind(AssertUnwindSafe(|| make(&txn, &target, off, *assoc, *via_type)));
+                let mut e = json!({"h": name, "i": i, "off": off, "assoc": an, "via": if *via_type { "type" } else { "index" }, "created": false,
+                    "anchor": [0, 0], "scope": "none", "sid": [0, 0], "sname": "", "assoc_api": "", "rtb": false, "rtj": false, "out": "ok"});
+                match one {
+                    Err(p) => {
+                        e["out"] = json!("panic");
+                        e["detail"] = json!(panic_msg(&p));
+                    }
+                    Ok(None) => e["out"] = json!("none"),
+                    Ok(Some(s0)) => {
+                        let (anchor, scope, sid, sname) = scope_json(&s0);
+                        e["created"] = json!(true);
+                        e["anchor"] = anchor;
+                        e["scope"] = json!(scope);
+                        e["sid"] = sid;
+                        e["sname"] = json!(sname);
+                        e["assoc_api"] = json!(if s0.assoc == Assoc::After { "after" } else { "before" });
+                        // binary round trip, then JSON round trip of the decoded value; the survivor is kept
+                        let mut cur = s0.clone();
+                        let b = catch_unwind(AssertUnwindSafe(|| StickyIndex::decode_v1(&s0.encode_v1())));
+                        match b {
+                            Ok(Ok(s1)) => {
+                                e["rtb"] = json!(s1 == s0);
+                                cur = s1;
+                            }
+                            Ok(Err(er)) => e["rterr"] = json!(format!("binary: {}", er)),
+                            Err(p) => e["rterr"] = json!(format!("binary panic: {}", panic_msg(&p))),
+                        }
+                        let c2 = cur.clone();
+                        let j = catch_unwind(AssertUnwindSafe(|| -> Result<StickyIndex, String> {
+                            let text = serde_json::to_string(&c2).map_err(|e| e.to_string())?;
+                            serde_json::from_str::<StickyIndex>(&text).map_err(|e| e.to_string())
+                        }));
+                        match j {
+                            Ok(Ok(s2)) => {
+                                e["rtj"] = json!(s2 == s0);
+                                cur = s2;
+                            }
+                            Ok(Err(er)) => e["rterr"] = json!(format!("json: {}", er)),
+                            Err(p) => e["rterr"] = json!(format!("json panic: {}", panic_msg(&p))),
+                        }
+                        keep.push(Handle { name: e["h"].as_str().unwrap().to_string(), idx: cur, kind });
+                    }
+                }
+                made.push(e);
+            }
+        }
+        Ok(())
+    }));
+    // outcome: "ok" | "skip" (path not navigable on this replica: nothing requested) | "panic"
+    let (outcome, detail) = match res {
+        Ok(Ok(())) => ("ok", String::new()),
+        Ok(Err(e)) => ("skip", e),
+        Err(p) => ("panic", panic_msg(&p)),
+    };
+    {
+        let s = state(w);
+        for h in keep {
+            s.handles.retain(|x| x.name != h.name);
+            s.handles.push(h);
+            s.created += 1;
+        }
+    }
+    json!({"k": "sticky", "r": r, "call": st, "cont": cont, "par": par, "len": len, "outcome": outcome, "detail": detail, "made": made, "obs": w.observe(ri)})
+}
+
+/// offset in the configured unit -> visible unit index, computed from the actual content (-1: not on a unit boundary)
+fn unit_index(widths: &[u32], raw: u32) -> i64 {
+    let mut acc = 0u32;
+    for (n, wd) in widths.iter().enumerate() {
+        if acc == raw {
+            return n as i64;
+        }
+        acc += wd;
+    }
+    if acc == raw {
+        widths.len() as i64
+    } else {
+        -1
+    }
+}
+
+fn resolve(w: &mut World, st: &Value) -> Value {
+    let r = st["r"].as_u64().unwrap();
+    let ri = w.rep(r);
+    let only = st["h"].as_str().map(|s| s.to_string());
+    let doc = w.reps[ri].doc.clone();
+    let offset = w.offset;
+    let mut res: Vec<Value> = Vec::new();
+    {
+        let s = state(w);
+        let txn = doc.transact();
+        for h in s.handles.iter() {
+            if let Some(o) = &only {
+                if &h.name != o {
+                    continue;
+                }
+            }
+            let one = catch_unwind(AssertUnwindSafe(|| {
+                h.idx.get_offset(&txn).map(|off| {
+                    let cont = match off.branch.id() {
+                        yrs::BranchID::Nested(id) => obs::cont_key_nested((id.client.get(), id.clock), ""),
+                        yrs::BranchID::Root(n) => obs::cont_key_root(&n, ""),
+                    };
+                    let idx = if h.kind == 't' {
+                        let t = TextRef::from(off.branch);
+                        unit_index(&text_units(&txn, &t, offset), off.index)
+                    } else {
+                        off.index as i64
+                    };
+                    (cont, idx, off.index, if off.assoc == Assoc::After { "after" } else { "before" })
+                })
+            }));
+            res.push(match one {
+                Ok(Some((cont, idx, raw, assoc))) => json!({"h": h.name, "found": true, "idx": idx, "raw": raw, "cont": cont, "assoc": assoc, "out": "ok"}),
+                Ok(None) => json!({"h": h.name, "found": false, "idx": -1, "raw": 0, "cont": "", "assoc": "", "out": "ok"}),
+                Err(p) => json!({"h": h.name, "found": false, "idx": -1, "raw": 0, "cont": "", "assoc": "", "out": "panic", "detail": panic_msg(&p)}),
+            });
+        }
+    }
+    let mut ev = json!({"k": "resolve", "r": r, "all": only.is_none(), "call": st, "res": res});
+    if st["obs"].as_bool().unwrap_or(false) {
+        // get_offset takes a read-only transaction; the state is recorded again only on request
+        ev["obs"] = w.observe(ri);
+    }
+    ev
+}
+
+pub fn step(w: &mut World, st: &Value) -> Option<Value> {
+    match st["a"].as_str() {
+        Some("sticky") => Some(create(w, st)),
+        Some("resolve") => Some(resolve(w, st)),
+        _ => None,
+    }
 }
 
 pub fn after_step(_w: &mut World, _st: &Value, _ev: &mut Value) {}
 
-pub fn random_step(_w: &mut World, _authors: &[u64], _all: &[u64]) -> Option<Value> {
-    None
+/// sequence containers replica `ri` can reach: (path, visible length)
+fn seq_containers(w: &World, ri: usize) -> Vec<(Vec<String>, u32)> {
+    let txn = w.reps[ri].doc.transact();
+    let mut out = Vec::new();
+    if let Some(t) = txn.get_text("t") {
+        out.push((vec!["t".to_string()], text_units(&txn, &t, w.offset).len() as u32));
+    }
+    if let Some(a) = txn.get_array("a") {
+        out.push((vec!["a".to_string()], a.len(&txn)));
+        for (i, v) in a.iter(&txn).enumerate() {
+            if let Out::YArray(x) = v {
+                out.push((vec!["a".into(), format!("#{}", i)], x.len(&txn)));
+            }
+        }
+    }
+    if let Some(m) = txn.get_map("m") {
+        let mut ks: Vec<(String, Out)> = m.iter(&txn).map(|(k, v)| (k.to_string(), v)).collect();
+        ks.sort_by(|a, b| a.0.cmp(&b.0));
+        for (k, v) in ks {
+            if let Out::YArray(x) = v {
+                out.push((vec!["m".into(), k], x.len(&txn)));
+            }
+        }
+    }
+    if let Some(x) = txn.get_xml_fragment("x") {
+        out.push((vec!["x".to_string()], x.len(&txn)));
+        for (i, c) in x.children(&txn).enumerate() {
+            match c {
+                XmlOut::Element(e) => {
+                    let f: &XmlFragmentRef = e.as_ref();
+                    out.push((vec!["x".into(), format!("#{}", i)], f.len(&txn)));
+                    for (j, c2) in f.children(&txn).enumerate() {
+                        if let XmlOut::Text(t) = c2 {
+                            let tr: &TextRef = t.as_ref();
+                            out.push((vec!["x".into(), format!("#{}", i), format!("#{}", j)], text_units(&txn, tr, w.offset).len() as u32));
+                        }
+                    }
+                }
+                XmlOut::Text(t) => {
+                    let tr: &TextRef = t.as_ref();
+                    out.push((vec!["x".into(), format!("#{}", i)], text_units(&txn, tr, w.offset).len() as u32));
+                }
+                _ => {}
+            }
+        }
+    }
+    out
+}
+
+pub fn random_step(w: &mut World, authors: &[u64], all: &[u64]) -> Option<Value> {
+    let (nh, created) = {
+        let s = state(w);
+        (s.handles.len(), s.created)
+    };
+    if nh == 0 || (nh < 12 && w.rng.chance(2, 5)) {
+        // creation: mostly on authors (they have content first), sometimes on an observer
+        let r = if w.rng.chance(4, 5) { authors[w.rng.below(authors.len() as u64) as usize] } else { all[w.rng.below(all.len() as u64) as usize] };
+        let ri = w.rep(r);
+        let conts = seq_containers(w, ri);
+        if conts.is_empty() {
+            return None;
+        }
+        // prefer non-empty containers
+        let mut pick = conts[w.rng.below(conts.len() as u64) as usize].clone();
+        for _ in 0..2 {
+            if pick.1 == 0 {
+                pick = conts[w.rng.below(conts.len() as u64) as usize].clone();
+            }
+        }
+        let p: Vec<Value> = pick.0.iter().map(|s| json!(s)).collect();
+        let h = format!("q{}", created);
+        if w.rng.chance(1, 4) {
+            Some(json!({"a": "sticky", "r": r, "p": p, "i": "all", "assoc": "both", "h": h}))
+        } else {
+            let i = w.rng.below(pick.1 as u64 + 1);
+            let assoc = if w.rng.chance(1, 2) { "after" } else { "before" };
+            Some(json!({"a": "sticky", "r": r, "p": p, "i": i, "assoc": assoc, "h": h}))
+        }
+    } else {
+        let r = all[w.rng.below(all.len() as u64) as usize];
+        if w.rng.chance(1, 4) {
+            let k = w.rng.below(nh as u64) as usize;
+            let name = state(w).handles[k].name.clone();
+            Some(json!({"a": "resolve", "r": r, "h": name}))
+        } else {
+            let obs = w.rng.chance(1, 4);
+            Some(json!({"a": "resolve", "r": r, "obs": obs}))
+        }
+    }
 }
